@@ -252,6 +252,9 @@ def process_pyro_request(environ, path, parameters, start_response):
                 return [reply]
             else:
                 proxy._pyroRawWireResponse = True   # we want to access the raw response json
+                if method not in proxy._pyroAttrs and method not in proxy._pyroMethods:
+                    # (not looked up on the proxy object: names like _pyroRelease or __class__ mean something to the proxy itself)
+                    raise AttributeError("remote object '%s' has no exposed attribute or method '%s'" % (object_name, method))
                 if method in proxy._pyroAttrs:
                     # retrieve the attribute
                     assert not parameters, "attribute lookup can't have query parameters"
